@@ -377,6 +377,18 @@ def check(run: lib.Run, audit: dict) -> int:
     ok, detail = lib.run_obligation("C09_shape")
     run.obligation("C09_shape: ShapeOk Generated.guardEvalMiss/Hit/SetPolicy", ok, detail if not ok else "discharged")
     run.extra["traced_programs"] = audit["facts"].get("guard_programs")
+    # tie by regeneration: the SOURCE TEXT of the cache range of the evaluation and of set_policy, translated, is proved to store nothing
+    # when the generation moved and to be the updater program for every outcome of every collaborator (the trace above is one run)
+    ok_tr, detail_tr = lib.run_obligation("C08_translated")
+    tr = audit["facts"].get("translated_cacheproto")
+    run.obligation("C08_translated (C09's share): Generated.Src.engine_cache_proto stores nothing if the generation read at store time differs from the "
+                   "one read at the start, and whatever it stores is this evaluation's decision under this evaluation's key "
+                   "(engine_cache_proto_gen_moved / _stored); Generated.Src.guard_set_policy is the updater program Conc.expectedSetPolicy inside one "
+                   "lock block, for every outcome of serialiser, sha3, compiler and cache.clear (guard_set_policy_eq / _program / _locked)",
+                   ok_tr, "discharged" if ok_tr else (str(tr["extraction_failed"]) if isinstance(tr, dict) and "extraction_failed" in tr else detail_tr))
+    ok_shape, ok = ok, ok and ok_tr
+    if ok_shape and not ok_tr:
+        detail = detail_tr
     run_cases(run, audit, scale=run.boost)
     inside_decision_probes(run)
     violations = []
@@ -387,8 +399,12 @@ def check(run: lib.Run, audit: dict) -> int:
                                          "count": len(run.spec_failures)})
         violations.append((path, True))
     elif not ok:
-        path = run.write_replay("obligation", {"what": "per-run obligation Rbacx/Run/C09_shape.lean no longer checks: the Guard's shared-access order is "
-                                               "not the one theorems Rbacx.C09.* are about", "traced": audit["facts"].get("guard_programs"), "lean": detail,
+        path = run.write_replay("obligation", {"what": ("per-run obligation Rbacx/Run/C09_shape.lean no longer checks: the Guard's shared-access order is "
+                                                        "not the one theorems Rbacx.C09.* are about" if not ok_shape else
+                                                        "per-run obligation Rbacx/Run/C08_translated.lean no longer checks: the translated source of the "
+                                                        "cache range of the evaluation / of set_policy is not proved to be the evaluator / updater program "
+                                                        "theorems Rbacx.C09.* are about (store only if the generation is unchanged; bump, publish, clear "
+                                                        "inside the lock)"), "traced": audit["facts"].get("guard_programs"), "lean": detail[-1500:],
                                                "first_disagreement": run.disagreements[:1]})
         violations.append((path, False))
     elif run.disagreements:
